@@ -21,14 +21,16 @@ def Key.le : Key → Key → Bool
   | .str a, .str b => strLe a b
 
 /-- insertion into a list sorted by key (stable: goes after equal keys) -/
-def insertByKey {β} (e : Key × β) : List (Key × β) → List (Key × β)
+def insertBy {κ β} (le : κ → κ → Bool) (e : κ × β) : List (κ × β) → List (κ × β)
   | [] => [e]
-  | f :: fs => if Key.le f.1 e.1 then f :: insertByKey e fs else e :: f :: fs
+  | f :: fs => if le f.1 e.1 then f :: insertBy le e fs else e :: f :: fs
 
-/-- stable sort by key; extensionally `sorted(items, key=...)` -/
-def sortByKey {β} : List (Key × β) → List (Key × β)
+/-- stable insertion sort by key; extensionally `sorted(items, key=...)` -/
+def sortBy {κ β} (le : κ → κ → Bool) : List (κ × β) → List (κ × β)
   | [] => []
-  | e :: es => insertByKey e (sortByKey es)
+  | e :: es => insertBy le e (sortBy le es)
+
+abbrev sortByKey {β} (l : List (Key × β)) : List (Key × β) := sortBy Key.le l
 
 mutual
   def orderV : Val → Val
@@ -43,9 +45,7 @@ end
 def orderD (es : Entries) : Entries := sortByKey (orderEs es)
 
 /-- `order_keys` on an int-keyed side table -/
-def Tbl.order {α} (t : Tbl α) : Tbl α :=
-  (sortByKey (t.map fun e => (Key.int e.1, e.2))).map fun e =>
-    (match e.1 with | .int z => z.toNat | _ => 0, e.2)
+def Tbl.order {α} (t : Tbl α) : Tbl α := sortBy (fun a b => decide (a ≤ b)) t
 
 /-- `SDict.order_keys()` -/
 def SD.order (s : SD) : SD :=
